@@ -634,7 +634,7 @@ def opt_get(script, key, default=None):
 # ------------------------------------------------------------------------------------------------
 # scripts
 
-def gen_assertions(rnd, L, sig, tg, depth, n_assert, planted_p=0.55):
+def gen_assertions(rnd, L, sig, tg, depth, n_assert, planted_p=0.55, dense_p=0.22):
     """Draw an atom pool and build assertions over it (plus planted shapes)."""
     pool = []
     npool = rnd.randint(3, 10)
@@ -667,6 +667,20 @@ def gen_assertions(rnd, L, sig, tg, depth, n_assert, planted_p=0.55):
         out = dense + out[:rnd.randint(0, 2)]
         rnd.shuffle(out)
         return out, pool
+    if tg.nonbool_sorts() and rnd.random() < dense_p:
+        # random clauses over a pool of theory atoms (k-SAT over atoms): real search with theory conflicts,
+        # propagations and explanations instead of level-0 refutations
+        atoms = [tg.atom(rnd.randint(0, 1)) for _ in range(rnd.randint(5, 12))]
+        dense = []
+        for _ in range(rnd.randint(2 * len(atoms), int(4.5 * len(atoms)))):
+            k = 3 if rnd.random() < 0.75 else 2
+            lits = []
+            for a in rnd.sample(atoms, min(k, len(atoms))):
+                lits.append(a if rnd.random() < 0.5 else "(not %s)" % a)
+            dense.append("(or %s)" % " ".join(lits))
+        out = dense + out[:rnd.randint(0, 3)]
+        rnd.shuffle(out)
+        return out, pool + atoms
     if out and rnd.random() < 0.18:
         # planted-only script: the shape is not drowned in unrelated constraints
         rnd.shuffle(out)
@@ -711,7 +725,7 @@ def macro_cmds(sig):
 
 def gen_script(rnd, tier="quick", logic_keys=None, tracking=None, engines=True, incremental=None,
                history=True, queries=True, named=0.0, min_checks=1, big=True, allow_nonincr=True, depth=None,
-               max_hist=None, planted_p=0.55, hist_p=0.6, hist_w=(0.42, 0.18, 0.15)):
+               max_hist=None, planted_p=0.55, hist_p=0.6, hist_w=(0.42, 0.18, 0.15), dense_p=0.22):
     """General-purpose script of the C01 input space."""
     lk = rnd.choice(logic_keys or ALL_LOGIC_KEYS)
     L = LOGICS[lk]
@@ -726,7 +740,7 @@ def gen_script(rnd, tier="quick", logic_keys=None, tracking=None, engines=True, 
         gen_macros(rnd, L, sig, tg)
     cmds = macro_cmds(sig)
     nas = rnd.randint(2, 8 if tier == "quick" else 12)
-    asserts, pool = gen_assertions(rnd, L, sig, tg, depth, nas, planted_p)
+    asserts, pool = gen_assertions(rnd, L, sig, tg, depth, nas, planted_p, dense_p)
     namec = [0]
 
     def mk_assert(t):
@@ -747,7 +761,9 @@ def gen_script(rnd, tier="quick", logic_keys=None, tracking=None, engines=True, 
             hist = [mk_assert(t) for t in asserts] + [["check-sat"]]
     else:
         maxh = max_hist or (12 if tier == "quick" else 30)
-        hist = gen_history(rnd, asserts, pool, tg, depth, mk_assert, rnd.randint(4, maxh), hist_w)
+        # known finding: the lookahead engines answer wrongly at assertion level >= 3 -> excluded by construction
+        hist = gen_history(rnd, asserts, pool, tg, depth, mk_assert, rnd.randint(4, maxh), hist_w,
+                           2 if eng in ("lookahead", "picky") else 4)
     cmds += hist
     nchk = sum(1 for c in cmds if c[0] == "check-sat")
     if nchk < min_checks:
@@ -803,7 +819,7 @@ def negate(t):
     return t[5:-1] if t.startswith("(not ") else "(not %s)" % t
 
 
-def gen_history(rnd, asserts, pool, tg, depth, mk_assert, steps, w):
+def gen_history(rnd, asserts, pool, tg, depth, mk_assert, steps, w, maxd=4):
     """History of assert / push / pop / check-sat with the shapes C04 names: repeated checks, re-asserted popped
     formulas, unsat levels that are popped and re-entered (a 'contradict' step asserts the negation of an active
     assertion), nested levels with pop to an intermediate level followed by a check."""
@@ -815,7 +831,7 @@ def gen_history(rnd, asserts, pool, tg, depth, mk_assert, steps, w):
     pa, pu, po = w
     i = 0
     if rnd.random() < 0.4:
-        return gen_churn(rnd, asserts, pool, tg, depth, mk_assert, steps)
+        return gen_churn(rnd, asserts, pool, tg, depth, mk_assert, steps, maxd)
     while i < steps:
         i += 1
         r = rnd.random()
@@ -860,8 +876,8 @@ def gen_history(rnd, asserts, pool, tg, depth, mk_assert, steps, w):
             hist.append(mk_assert(t))
             live[-1].append(t)
             last = "assert"
-        elif r < pa + pu and d < 4:
-            n = 1 if rnd.random() < 0.85 else 2
+        elif r < pa + pu and d < maxd:
+            n = 1 if (rnd.random() < 0.85 or d + 2 > maxd) else 2
             hist.append(["push", n])
             for _ in range(n):
                 live.append([])
@@ -880,7 +896,7 @@ def gen_history(rnd, asserts, pool, tg, depth, mk_assert, steps, w):
     return hist
 
 
-def gen_churn(rnd, asserts, pool, tg, depth, mk_assert, steps):
+def gen_churn(rnd, asserts, pool, tg, depth, mk_assert, steps, maxd=4):
     """Dense push/assert/check/pop churn: frame ids and stack positions diverge early, levels are frequently
     unsat (by search or already by preprocessing) and every change is followed by a check."""
     hist = []
@@ -927,8 +943,8 @@ def gen_churn(rnd, asserts, pool, tg, depth, mk_assert, steps):
     while n < steps:
         d = len(live) - 1
         r = rnd.random()
-        if d == 0 or (r < 0.45 and d < 4):
-            k = 1 if rnd.random() < 0.9 else 2
+        if d == 0 or (r < 0.45 and d < maxd):
+            k = 1 if (rnd.random() < 0.9 or d + 2 > maxd) else 2
             hist.append(["push", k])
             for _ in range(k):
                 live.append([])
